@@ -22,6 +22,9 @@ POOL_SRC = [
     "<<<'a' => 1>>>", "<**>", "<*a = 1*>", "fn(x) x", "fn(a, b) a",
     # collections mixing kinds (their enumeration order needs the cross-kind order)
     "<<1, 'a'>>", "<<NULL, TRUE, 'x', 2.5>>", "<<<1 => 'a', 'b' => 2>>>", "<<[1], 2, fn(y) y>>",
+    # objects whose prototype chain is cyclic: through the object itself, and a cycle further up that does not contain it
+    "(fn() do def o = <*k = 1*>; o->_proto_ = o; o end)()",
+    "(fn() do def b = <*n = 1*>; def c = <*_proto_ = b*>; b->_proto_ = c; <*_proto_ = b, own = 2*> end)()",
 ]
 BIG = "9007199254740993"
 
@@ -264,7 +267,13 @@ def run(ctx):
                 bad += res
         ctx.nontrivial = set(range(total))      # every tuple is a distinct case by construction
         seen_sites = set()
+        cyclic = {i for i, p_ in enumerate(POOL_SRC) if "_proto_ = " in p_ and "(fn()" in p_}
         for src, binds, out in sorted(bad, key=lambda x: (x[0], sorted(x[1].items()))):
+            if out[0] == 'host' and 'RecursionError' in out[1] and any(i in cyclic for i in binds.values()):
+                # recorded finding: hashing / comparing / rendering a value that contains a reference cycle recurses without bound
+                ctx.violation("oracle", "cyclic value", {"finding_key": "C13:cyclic-value-recursion"})
+                ctx.count("known_cyclic_value_recursions")
+                continue
             site = (src.split("(")[0] if "(" in src and src[0].isalpha() else src, out[0], out[1].split(":")[0] if len(out) > 1 else "")
             if site in seen_sites:
                 ctx.count("further_failing_tuples")
@@ -278,7 +287,7 @@ def run(ctx):
         shutil.rmtree(scratch, ignore_errors=True)
     # ---------------- outcome class vs the model evaluator on operator forms over data values
     if ctx.build.ok:
-        data_idx = [i for i, s in enumerate(POOL_SRC) if not s.startswith(("fn(", "<*", "date(", "//"))]
+        data_idx = [i for i, s in enumerate(POOL_SRC) if not s.startswith(("fn(", "(fn(", "<*", "date(", "//"))]
         progs = []
         for f in ["a + b", "a - b", "a * b", "a / b", "a % b", "a == b", "a < b", "a >= b", "a and b", "a in b", "a[b]", "a[b to *]",
                   "[x for x in a]", "for x in a do x end", "[...a]", "not a", "-a", "a[0 to b]", "def [x1, y1] = a"]:
